@@ -205,7 +205,7 @@ class Groups:
         for l in read_ndjson(p):
             m = re.match(r"C_(\d+)$", l.get("name", ""))
             if m:
-                out.append((int(m.group(1)), l["ok"], l.get("val", "")))
+                out.append((int(m.group(1)), l["ok"], bool(l.get("panic")), l.get("val", "")))
         return out
 
     def digest(self, rec, cases, r):
@@ -240,31 +240,20 @@ class Groups:
         errs = [x.strip() for x in diag.split("____") if x.strip().startswith("error")]
         if self.r == "a":
             hook = self.hook_lines(rec)
-            if hook or panic:
-                order = [c["n"] for c in cases]
-                got = [h[0] for h in hook]
-                if got != order[:len(got)]:
-                    raise ToolError("C06: hook H8 reported const declarations out of declaration order in %s" % rec["id"])
+            if hook and sorted(h[0] for h in hook) != sorted(by_n):
+                raise ToolError("C06: hook H8 did not report exactly the const declarations of %s" % rec["id"])
+            if hook and not all(ok and not pan for _, ok, pan, _ in hook):
                 again = []
-                for n, ok, val in hook:
+                for n, ok, pan, val in hook:
                     self.hook_verdicts += 1
-                    if ok:
+                    if pan:
+                        self.set(by_n[n], "panic", detail=val[:300])
+                        log("[C06] compiler panic on const %s: %s" % (describe(by_n[n]["e"]), val[:120]))
+                    elif ok:
                         again.append(by_n[n])          # evaluated: observe its value in a package that builds
                     else:
                         self.set(by_n[n], "cerror", detail=val[:200])
-                rest = cases[len(got):]
-                if panic:
-                    if not rest:
-                        raise ToolError("C06: compiler panic in %s outside the const declarations: %s" % (rec["id"], panic[:300]))
-                    self.set(rest[0], "panic", detail=panic[:300])
-                    rest = rest[1:]
-                elif rest:
-                    raise ToolError("C06: hook H8 did not report every const declaration of %s" % rec["id"])
-                if not panic and not any(not ok for _, ok, _ in hook):
-                    raise ToolError("C06: %s failed to build for another reason than its consts: %s" % (rec["id"], " ".join(errs)[:600]))
-                if again and len(again) == len(cases):
-                    raise ToolError("C06: %s failed to build although every const evaluated: %s" % (rec["id"], " ".join(errs)[:600]))
-                return [g for g in (again, rest) if g]
+                return [again] if again else []
         # no per-declaration information: a single case takes the verdict, a group is halved
         if len(cases) == 1:
             if panic:
